@@ -147,6 +147,69 @@ theorem next_up_bit_exact_f32 (lib : Libm) (x : Nat) (m : Nat) (e : Int) (dx : d
   rw [hfm] at this
   simpa using this
 
+theorem g32a : FAVerif.FP.gt ⟨24, 8⟩ 2139095039 2139095040 = false := by decide +kernel
+theorem g32b : FAVerif.FP.gt ⟨24, 8⟩ 2139095039 2123789977 = true := by decide +kernel
+
+/-- the traced (dtype-agnostic) `is_power_of_two` on float32, for every input pattern: its dispatch on `largest`
+folds to the float32 branch  D == x  with  D = P·x − Q·x,  P = 2^23 + 1,  Q = 2^23 -/
+theorem is_power_of_two_shape_f32 (lib : Libm) (x : Nat) :
+    is_power_of_two_f32.eval lib [x] =
+      some [b2n (FAVerif.FP.eq binary32 (FAVerif.FP.sub binary32 (FAVerif.FP.mul binary32 1258291201 x) (FAVerif.FP.mul binary32 1258291200 x)) x)] := by
+  simp [Prog.eval, is_power_of_two_f32, evalNodes, evalNode, g32a, g32b, binary32]
+  simp [b2n]
+
+/-- **`is_power_of_two` is exact on BIT PATTERNS (float32)**: for every pattern x of a normal number ±m·2^e
+(2^23 ≤ m < 2^24), whenever the three arithmetic results are finite, the traced program returns 1 if m = 2^23
+(x is a power of two) and 0 otherwise.  Chain: `is_power_of_two_shape_f32`, correct rounding of the softfloat
+mul/sub, comparison of patterns = comparison of values, `is_power_of_two_all_precisions`. -/
+theorem is_power_of_two_bit_exact_f32 (lib : Libm) (x : Nat) (s : Bool) (m : Nat) (e : Int)
+    (dx : decode binary32 x = .fin s m e) (nm : 2 ^ 23 ≤ m)
+    (fL : isFiniteBits binary32 (FAVerif.FP.mul binary32 1258291201 x) = true)
+    (fR : isFiniteBits binary32 (FAVerif.FP.mul binary32 1258291200 x) = true)
+    (fD : isFiniteBits binary32 (FAVerif.FP.sub binary32 (FAVerif.FP.mul binary32 1258291201 x) (FAVerif.FP.mul binary32 1258291200 x)) = true) :
+    is_power_of_two_f32.eval lib [x] = some [b2n (decide (m = 2 ^ 23))] := by
+  rw [is_power_of_two_shape_f32]
+  have hf : WF binary32 := ⟨by decide, by decide⟩
+  obtain ⟨b1, b2⟩ := decode_bounds binary32 hf x s m e dx
+  have dP : decode binary32 1258291201 = .fin false 8388609 0 := by decide +kernel
+  have dQ : decode binary32 1258291200 = .fin false 8388608 0 := by decide +kernel
+  set r := rne (qf binary32 hf.hp) with hr
+  have hrn : IsRN (qf binary32 hf.hp) r := isRN_rne _
+  have vL := mul_correct binary32 hf _ x false s 8388609 m 0 e dP dx fL
+  have vR := mul_correct binary32 hf _ x false s 8388608 m 0 e dQ dx fR
+  obtain ⟨sL, mL, eL, dL⟩ := finite_decode binary32 _ fL
+  obtain ⟨sR, mR, eR, dR⟩ := finite_decode binary32 _ fR
+  have eL' : valQ sL mL eL = r (valQ false 8388609 0 * valQ s m e) := by
+    have := toQ_fin binary32 _ sL mL eL dL; rw [vL] at this; exact (Option.some.inj this).symm
+  have eR' : valQ sR mR eR = r (valQ false 8388608 0 * valQ s m e) := by
+    have := toQ_fin binary32 _ sR mR eR dR; rw [vR] at this; exact (Option.some.inj this).symm
+  have vD := sub_correct binary32 hf _ _ sL sR mL mR eL eR dL dR fD
+  rw [eL', eR'] at vD
+  have fx := finite_of_decode binary32 x s m e dx
+  have hev := eq_val hf fD fx vD (toQ_fin binary32 x s m e dx)
+  rw [hev]
+  congr 3
+  -- the ℚ-level theorem
+  have hP : valQ false 8388609 0 = 2 ^ 23 + 1 := by simp [valQ]; norm_num
+  have hQ : valQ false 8388608 0 = 2 ^ 23 := by simp [valQ]; norm_num
+  rw [hP, hQ]
+  have key := is_power_of_two_all_precisions (qf binary32 hf.hp) r hrn 23 rfl (m : ℤ) e (by exact_mod_cast nm) (by exact_mod_cast b1)
+    (by show binary32.emin ≤ e + ((23 : ℕ) : ℤ); omega)
+  apply decide_eq_decide.mpr
+  cases s
+  · have hv : valQ false m e = ((m : ℤ) : ℚ) * 2 ^ e := by simp [valQ]
+    rw [hv]
+    have := key.1
+    constructor
+    · intro h; have := this.mp h; exact_mod_cast this
+    · intro h; exact this.mpr (by exact_mod_cast h)
+  · have hv : valQ true m e = -(((m : ℤ) : ℚ) * 2 ^ e) := by simp [valQ]
+    rw [hv]
+    have := key.2
+    constructor
+    · intro h; have := this.mp h; exact_mod_cast this
+    · intro h; exact this.mpr (by exact_mod_cast h)
+
 /-- Sample-free sanity of the bit-exact model on the tied program (powers of two and their
 neighbours, float32): next up of 1.0 is 1.0+ulp, next down of 1.0 is 1.0-ulp/2. -/
 example : next_up_f32.eval (fun _ _ => none) [0x3f800000] = some [0x3f800001] := by decide +kernel
